@@ -146,6 +146,17 @@ def check(ctx, fx, rule="H7", table=None, floor=10, contains=False, what="the St
             for nd, st, b in C.all_nodes(f):
                 for a in abstract_all(nd, min_abs, inits):
                     got.setdefault(a, st.get("loc") or f["loc"])
+                # a part of the function extracted into a file-local helper (anonymous namespace) that has no entry of its own in the table:
+                # its tests count for the function that calls it
+                if nd.get("k") == "call" and nd.get("fp") and nd.get("callee") and nd.get("qname") not in table:
+                    g = fx.by_key.get(nd["callee"])
+                    if g is not None and g.get("blocks") and g.get("file") == f.get("file") and C.first_party(g) and \
+                            "(anonymous namespace)" in g["qname"] and \
+                            not any(g["qname"].endswith("::" + k.split("::")[-1]) for k in table):
+                        gin = C.single_inits(g)
+                        for nd2, st2, b2 in C.all_nodes(g):
+                            for a in abstract_all(nd2, min_abs, gin):
+                                got.setdefault(a, st2.get("loc") or g["loc"])
             if not got and not f.get("blocks"):
                 continue
             n += 1
